@@ -52,3 +52,43 @@ Example rq_rejections :
   persist_rejected false rq_req c15rq_schema k_edge (rq_fv [98] []) [] None = true /\
   persist_rejected false rq_req c15rq_schema k_node (rq_fv [98] []) [] None = false.
 Proof. vm_compute. repeat split; reflexivity. Qed.
+
+(* ---- (seeded C15-w9-1) wirings C15cp / C15cm of store_c15w9.go: the schemas of C15lp / C15lm (Examples/C15Links.v) whose PLAIN
+   child store owns a link collection to the peer store: pc.csites <-> site.ccrew.  (An extended child store with a link
+   collection is not part of the stream: candidate defect of the unmodified tree, design/C06.md.)  Side conditions of the C15
+   theorems (wf_child_b per child store, wf_unique_b, wf_notrace_b of delete_removes_link_mentions) by computation, and the
+   delete of a linked child entity through either store on a concrete population: the peer's back-reference set is emptied. *)
+From Storage Require Import Examples.C15Links.
+
+Definition l_csites : name := [99;115;105;116;101;115].
+Definition l_ccrew : name := [99;99;114;101;119].
+
+Definition dc_site : sdef :=
+  mkSdef l_site None false [(l_label, false)] [] [CUnique l_label false] [(l_crew, l_p, l_sites); (l_ccrew, l_pc, l_csites)].
+Definition dc_pc : sdef := mkSdef l_pc (Some l_p) false [(l_ckey, true); (l_cnote, false)] [] [CUnique l_ckey true] [(l_csites, l_site, l_ccrew)].
+
+Definition cp_schema : schema := [dc_site; dl_p; dc_pc].
+Definition cm_schema : schema := [dc_site; dl_p; dl_px; dc_pc].
+
+Example child_linked_wf :
+  wf_child_b cp_schema l_p l_pc = true /\ wf_child_b cm_schema l_p l_px = true /\ wf_child_b cm_schema l_p l_pc = true /\
+  wf_unique_b cp_schema l_p l_name = true /\ wf_unique_b cm_schema l_p l_name = true /\
+  wf_notrace_b cp_schema = true /\ wf_notrace_b cm_schema = true.
+Proof. vm_compute. repeat split; reflexivity. Qed.
+
+(* site s ; p a plain parent ; b through pc, linked through pc.csites to s ; c through px *)
+Definition cl_pop : list tx :=
+  [ mkTx false [] [OCreate l_site [115] false [(l_label, Some [108])] [];
+                   lk_mk l_p [97] [49]; lk_mk l_pc [98] [50]; lk_mk l_px [99] [51];
+                   OAddLinks l_pc [98] l_csites [[115]]; OAddLinks l_p [99] l_sites [[115]]] false ].
+Definition stc : state := run_txs cm_schema 8 st_empty cl_pop.
+Definition stc_after (through : name) (i : str) : state := run_txs cm_schema 8 stc [mkTx false [] [ODelete through i] false].
+
+Example child_linked_population :
+  get_set cm_schema stc l_site [115] l_ccrew = [[98]] /\ get_set cm_schema stc l_site [115] l_crew = [[99]] /\
+  get_set cm_schema stc l_p [98] l_csites = [[115]].
+Proof. vm_compute. repeat split; reflexivity. Qed.
+Example child_linked_delete_cleans_peer :
+  get_set cm_schema (stc_after l_pc [98]) l_site [115] l_ccrew = [] /\ get_set cm_schema (stc_after l_p [98]) l_site [115] l_ccrew = [] /\
+  ids_of (stc_after l_p [98]) l_p = [[97]; [99]] /\ get_set cm_schema (stc_after l_pc [98]) l_site [115] l_crew = [[99]].
+Proof. vm_compute. repeat split; reflexivity. Qed.
